@@ -10,13 +10,14 @@ With --keep the change is stored under /verif/seeded/<Cxx>-<A|B>/ with meta.json
 import subprocess, os, sys, json, shutil, re, time
 prop, which = sys.argv[1], sys.argv[2]
 args = sys.argv[3:]
-checks = [prop]; tier = 'quick'; keep = False; src = None
+checks = [prop]; tier = 'quick'; keep = False; src = None; store_as = None
 while args:
     a = args.pop(0)
     if a == '--checks': checks = args.pop(0).split(',')
     elif a == '--tier': tier = args.pop(0)
     elif a == '--keep': keep = True
     elif a == '--src': src = args.pop(0)
+    elif a == '--as': store_as = args.pop(0)
 src = src or f'/tmp/seed-{prop.lower()}-out'
 patch = f'{src}/{which}.patch'; demo = f'{src}/{which}_demo_test.go'
 if os.path.exists(f'{src}/patch.diff'):
@@ -31,7 +32,7 @@ env = dict(os.environ, GOFLAGS='-mod=mod', GOPROXY='off', GOTOOLCHAIN='local')
 wt = f'/tmp/seedeval-wt-{os.getpid()}'; out = f'/tmp/seedeval-out-{os.getpid()}'
 subprocess.run(['git', '-C', '/repo', 'worktree', 'add', '--detach', '-q', wt, 'HEAD'], check=True)
 os.makedirs(out, exist_ok=True); shutil.copy('/verif/known_findings.json', out)
-meta = {'property': prop, 'variant': which, 'repo_head': subprocess.run(['git', '-C', '/repo', 'log', '-1', '--format=%h'], capture_output=True, text=True).stdout.strip(), 'ran': []}
+meta = {'property': prop, 'variant': store_as or which, 'repo_head': subprocess.run(['git', '-C', '/repo', 'log', '-1', '--format=%h'], capture_output=True, text=True).stdout.strip(), 'ran': []}
 def run(cmd, **kw):
     r = subprocess.run(cmd, capture_output=True, text=True, **kw)
     return r
@@ -82,7 +83,7 @@ finally:
     shutil.rmtree(f'/verif/.build/{tag}', ignore_errors=True)
 print(json.dumps(meta, indent=1))
 if keep and meta.get('valid'):
-    d = f'/verif/seeded/{prop}-{which}'
+    d = f'/verif/seeded/{prop}-{store_as or which}'
     os.makedirs(d, exist_ok=True)
     shutil.copy(patch, f'{d}/patch.diff'); shutil.copy(demo, f'{d}/demo_test.go')
     rd = f'{src}/README.md'
@@ -94,6 +95,6 @@ if keep and meta.get('valid'):
         if k in old: meta[k] = old[k]
     nf = '/verif/seeded/notes.json'
     if os.path.exists(nf):
-        n = json.load(open(nf)).get(f'{prop}-{which}')
+        n = json.load(open(nf)).get(f'{prop}-{store_as or which}')
         if n: meta['what'], meta['needs_to_manifest'] = n[0], n[1]
     json.dump(meta, open(f'{d}/meta.json', 'w'), indent=1)
